@@ -1,13 +1,75 @@
-(* C10 - Version negotiation yields one msize that both ends then honour. (theorems being added; see Proofs/VersionProofs.v) *)
+(* C10 - Version negotiation yields one msize that both ends then honour.
+   Statements only; proofs in Proofs/VersionProofs.v (and ChannelProofs/ChannelRead for clause 5). *)
 From Coq Require Import List NArith ZArith Bool.
-From P9 Require Import Base.Res Base.Bytes Model.WireTypes Model.Spec9P Model.Wire Model.Channel Model.Version.
+From P9 Require Import Base.Res Base.Bytes Model.WireTypes Model.Spec9P Model.Wire Model.Channel Model.Version
+  Proofs.WireDecode Proofs.ChannelProofs Proofs.ChannelRead Proofs.VersionProofs.
 Import ListNotations.
 Open Scope N_scope.
 
-(* a client proposing 8192 to a server whose maximum is 65536: both adopt 8192 *)
+(* 1. Server: for every proposal c in [0,2^32), every version string and every own maximum, the
+      reply carries min(c, own) -- never more than the client proposed nor than the server's maximum --
+      and that is what the server adopts; a proposal that cannot even carry the 19-byte version reply
+      is refused with nothing written. *)
+Theorem C10_server : forall own tag c v rest,
+  own < M32 -> tag < M16 -> c < M32 -> wf_str v = true -> 13 + len v <= own ->
+  server_handshake own (frame (enc_fcall (mk_version T_Tversion tag c v)) ++ rest) =
+    if 19 <=? N.min c own
+    then (frame (enc_fcall (mk_version T_Rversion NOTAG (N.min c own) V9P2000)), true, N.min c own)
+    else ([], false, N.min c own).
+Proof. exact server_spec. Qed.
+Print Assumptions C10_server.
+
+(* 2. Client: for every answer s in [0,2^32) the client adopts min(s, proposed), never more than it proposed. *)
+Theorem C10_client : forall proposed tag s rest,
+  19 <= proposed -> proposed < M32 -> tag < M16 -> s < M32 ->
+  client_handshake proposed (frame (enc_fcall (mk_version T_Rversion tag s V9P2000)) ++ rest) =
+    (frame (enc_fcall (mk_version T_Tversion NOTAG proposed V9P2000)), true, N.min s proposed).
+Proof. exact client_spec. Qed.
+Print Assumptions C10_client.
+
+(* 3. When both ends run this code, both adopt the minimum of the two offers. *)
+Theorem C10_agree : forall proposed own, 19 <= proposed -> proposed < M32 -> 19 <= own -> own < M32 ->
+  exists req reply,
+    client_request proposed = (req, WSent) /\
+    server_handshake own req = (reply, true, N.min proposed own) /\
+    client_handshake proposed reply = (req, true, N.min proposed own).
+Proof. exact both_agree. Qed.
+Print Assumptions C10_agree.
+
+(* 4. A connection whose first message is not a version request (or is not a message at all) is
+      refused: nothing is written and serving never starts, so nothing reaches the handler. *)
+Theorem C10_refuse : forall own s,
+  (forall f b r, read_fcall own [] s = (RMsg f, b, r) -> fc_type f <> T_Tversion) ->
+  server_handshake own s = ([], false, own).
+Proof. exact server_refuses_nonversion. Qed.
+Print Assumptions C10_refuse.
+
+(* 5. From then on each end honours the adopted msize m: every write emits one frame of at most m
+      bytes or nothing (C02_frame at msize := m), and a frame of exactly m bytes is accepted while
+      any longer one is reported as an overflow of exactly the excess (C03_one_frame / classify). *)
+Theorem C10_honour_out : forall m live f, wf_fcall f = true -> 24 <= m -> m < M32 ->
+  (live = false /\ write_fcall m live f = ([], WCtx)) \/
+  (live = true /\ exists out, write_fcall m live f = (out, WSent) /\
+      (exists body, out = le 4 (len out) ++ body) /\ len out <= m) \/
+  (live = true /\ m < 4 + len (enc_fcall f) /\ write_fcall m live f = ([], WOverflow (4 + len (enc_fcall f) - m))).
+Proof. exact write_fcall_frame. Qed.
+Print Assumptions C10_honour_out.
+
+Theorem C10_honour_in : forall m body f, 24 <= m -> m < M32 - 12 -> len body + 4 = m -> allb body ->
+  dec_fcall body = Ok f ->
+  (exists f', classify m m body = RMsg f') /\ (forall k body', 0 < k -> classify m (m + k) body' = ROverflow k).
+Proof. exact honour_in. Qed.
+Print Assumptions C10_honour_in.
+
+(* non-vacuity *)
 Example C10_agree_example :
   let '(req, _) := client_request 8192 in
   let '(reply, ok, m) := server_handshake 65536 req in
   ok = true /\ m = 8192 /\ client_handshake 8192 reply = (req, true, 8192).
 Proof. vm_compute. repeat split; reflexivity. Qed.
 Print Assumptions C10_agree_example.
+
+Example C10_refuse_small_example :
+  server_handshake 65536 (frame (enc_fcall (mk_version T_Tversion 65535 18 V9P2000))) = ([], false, 18).
+Proof. vm_compute. reflexivity. Qed.
+Print Assumptions C10_refuse_small_example.
